@@ -14,7 +14,11 @@
      utf8_dec bs         bytes.decode('utf-8')            None = UnicodeDecodeError
      utf8_dec_replace bs bytes.decode('utf-8','replace')
 
-   Owned by cluster qslH.  Statements below are stable (imported by C07/C12/C14). *)
+   Owned by cluster qslH.  Statements below are stable (imported by C07/C12/C14).
+
+   Note for importers: this file requires Coq's ZifyN, which (a standard-library
+   side effect) makes [lia] understand N/Z division and modulo by constants in
+   every file that loads it. *)
 From Verif Require Import lib.Base.
 From Coq Require Import ZifyBool ZifyN.
 Local Open Scope N_scope.
@@ -163,16 +167,159 @@ Proof. unfold latin1_enc, latin1_dec. destruct (forallb is_byte s); congruence. 
 (* Lemmas about the encoder                                            *)
 (* ------------------------------------------------------------------ *)
 
-Ltac zify_divmod := Z.div_mod_to_equations.
-Ltac Zify.zify_post_hook ::= Z.div_mod_to_equations.
+(* lia with N.div / N.modulo by constants.  (Deliberately not installed as
+   Zify.zify_post_hook: that redefinition would leak into every importer.) *)
+Ltac dlia := zify; Z.div_mod_to_equations; lia.
 
 Lemma utf8_enc_ascii c : c < 128 -> utf8_enc c = [c].
-Proof. intros H. unfold utf8_enc. replace (c <? 0x80) with true by lia. reflexivity. Qed.
+Proof. intros H. unfold utf8_enc. replace (c <? 0x80) with true by dlia. reflexivity. Qed.
 
 Lemma utf8_enc_high c : 128 <= c -> Forall (fun b => 128 <= b < 256) (utf8_enc c).
 Proof.
   intros H. unfold utf8_enc.
-  destruct (N.ltb_spec c 0x80); [lia|].
+  destruct (N.ltb_spec c 0x80); [dlia|].
   destruct (N.ltb_spec c 0x800); [|destruct (N.ltb_spec c 0x10000)];
-    repeat constructor; lia.
+    repeat constructor; dlia.
+Qed.
+
+Lemma utf8_enc_bytes c : scalar c -> Forall (fun b => b < 256) (utf8_enc c).
+Proof.
+  intros _. unfold utf8_enc.
+  destruct (N.ltb_spec c 0x80); [|destruct (N.ltb_spec c 0x800); [|destruct (N.ltb_spec c 0x10000)]];
+    repeat constructor; dlia.
+Qed.
+
+(* unconditional variant (any number) *)
+Lemma utf8_enc_bytes_all c : Forall (fun b => b < 256) (utf8_enc c).
+Proof.
+  unfold utf8_enc.
+  destruct (N.ltb_spec c 0x80); [|destruct (N.ltb_spec c 0x800); [|destruct (N.ltb_spec c 0x10000)]];
+    repeat constructor; dlia.
+Qed.
+
+Lemma utf8_enc_nonempty c : utf8_enc c <> [].
+Proof.
+  unfold utf8_enc.
+  destruct (c <? 0x80); [|destruct (c <? 0x800); [|destruct (c <? 0x10000)]]; discriminate.
+Qed.
+
+Lemma utf8_enc_length c : (1 <= length (utf8_enc c) <= 4)%nat.
+Proof.
+  unfold utf8_enc.
+  destruct (c <? 0x80); [|destruct (c <? 0x800); [|destruct (c <? 0x10000)]]; simpl; dlia.
+Qed.
+
+Lemma utf8_enc_str_app a b : utf8_enc_str (a ++ b) = utf8_enc_str a ++ utf8_enc_str b.
+Proof. unfold utf8_enc_str. apply flat_map_app. Qed.
+
+Lemma utf8_enc_str_ascii s : Forall (fun c => c < 128) s -> utf8_enc_str s = s.
+Proof.
+  induction 1 as [|c s Hc _ IH]; [reflexivity|].
+  unfold utf8_enc_str in *. simpl. rewrite IH, utf8_enc_ascii by exact Hc. reflexivity.
+Qed.
+
+Lemma utf8_enc_str_bytes s : Forall (fun b => b < 256) (utf8_enc_str s).
+Proof.
+  induction s as [|c s IH]; [constructor|].
+  unfold utf8_enc_str in *. simpl. apply Forall_app. split; [apply utf8_enc_bytes_all | exact IH].
+Qed.
+
+(* ------------------------------------------------------------------ *)
+(* Decoding an encoded code point                                      *)
+(* ------------------------------------------------------------------ *)
+
+Local Ltac ltb_true := match goal with |- context [?a <? ?b] =>
+  replace (a <? b) with true by (symmetry; apply N.ltb_lt; dlia) end.
+Local Ltac ltb_false := match goal with |- context [?a <? ?b] =>
+  replace (a <? b) with false by (symmetry; apply N.ltb_ge; dlia) end.
+
+Lemma is_cont_low x : x < 64 -> is_cont (0x80 + x) = true.
+Proof. unfold is_cont. dlia. Qed.
+
+Lemma scan1 c r : c < 0x80 -> utf8_scan (c :: r) = Some c :: utf8_scan r.
+Proof. intros H. cbn [utf8_scan]. ltb_true. reflexivity. Qed.
+
+Lemma scan2 a b r : 2 <= a -> a < 32 -> b < 64 ->
+  utf8_scan (0xC0 + a :: 0x80 + b :: r) = Some (a * 64 + b) :: utf8_scan r.
+Proof.
+  intros H1 H2 H3. cbn [utf8_scan].
+  ltb_false. ltb_false. ltb_true. rewrite is_cont_low by exact H3.
+  do 2 f_equal. dlia.
+Qed.
+
+Lemma scan3 a b d r : a < 16 -> b < 64 -> d < 64 ->
+  (a = 0 -> 32 <= b) -> (a = 13 -> b < 32) ->
+  utf8_scan (0xE0 + a :: 0x80 + b :: 0x80 + d :: r) = Some (a * 4096 + b * 64 + d) :: utf8_scan r.
+Proof.
+  intros H1 H2 H3 H4 H5. cbn [utf8_scan].
+  ltb_false. ltb_false. ltb_false. ltb_true.
+  replace (ok2_3 (0xE0 + a) (0x80 + b)) with true by (unfold ok2_3, is_cont; dlia).
+  rewrite is_cont_low by exact H3.
+  do 2 f_equal. dlia.
+Qed.
+
+Lemma scan4 a b d e r : a < 5 -> b < 64 -> d < 64 -> e < 64 ->
+  (a = 0 -> 16 <= b) -> (a = 4 -> b < 16) ->
+  utf8_scan (0xF0 + a :: 0x80 + b :: 0x80 + d :: 0x80 + e :: r)
+  = Some (a * 262144 + b * 4096 + d * 64 + e) :: utf8_scan r.
+Proof.
+  intros H1 H2 H3 H4 H5 H6. cbn [utf8_scan].
+  ltb_false. ltb_false. ltb_false. ltb_false. ltb_true.
+  replace (ok2_4 (0xF0 + a) (0x80 + b)) with true by (unfold ok2_4, is_cont; dlia).
+  rewrite !is_cont_low by assumption.
+  do 2 f_equal. dlia.
+Qed.
+
+(* the scanner reads back exactly one encoded scalar value and continues *)
+Lemma utf8_scan_enc c r : scalar c -> utf8_scan (utf8_enc c ++ r) = Some c :: utf8_scan r.
+Proof.
+  intros Hs. unfold scalar in Hs. unfold utf8_enc.
+  destruct (N.ltb_spec c 0x80) as [H1|H1]; [apply scan1; exact H1|].
+  destruct (N.ltb_spec c 0x800) as [H2|H2].
+  { cbn [app]. rewrite scan2 by dlia. do 2 f_equal. dlia. }
+  destruct (N.ltb_spec c 0x10000) as [H3|H3].
+  { cbn [app]. rewrite scan3 by dlia. do 2 f_equal. dlia. }
+  cbn [app]. replace ((c / 262144) mod 8) with (c / 262144) by dlia.
+  rewrite scan4 by dlia. do 2 f_equal. dlia.
+Qed.
+
+Lemma utf8_scan_enc_str s r :
+  Forall scalar s -> utf8_scan (utf8_enc_str s ++ r) = map Some s ++ utf8_scan r.
+Proof.
+  induction 1 as [|c s Hc _ IH]; [reflexivity|].
+  unfold utf8_enc_str in *. cbn [flat_map map app]. rewrite <- app_assoc.
+  rewrite utf8_scan_enc by exact Hc. rewrite IH. reflexivity.
+Qed.
+
+Lemma sequence_opt_map_some {A} (l : list A) : sequence_opt (map Some l) = Some l.
+Proof. induction l as [|a l IH]; simpl; [reflexivity | now rewrite IH]. Qed.
+
+(* MAIN: strict decoding inverts encoding on scalar text *)
+Lemma utf8_dec_enc s : Forall scalar s -> utf8_dec (utf8_enc_str s) = Some s.
+Proof.
+  intros H. unfold utf8_dec.
+  rewrite <- (app_nil_r (utf8_enc_str s)), utf8_scan_enc_str by exact H.
+  cbn [utf8_scan]. rewrite app_nil_r. apply sequence_opt_map_some.
+Qed.
+
+Lemma utf8_dec_replace_enc s : Forall scalar s -> utf8_dec_replace (utf8_enc_str s) = s.
+Proof.
+  intros H. unfold utf8_dec_replace.
+  rewrite <- (app_nil_r (utf8_enc_str s)), utf8_scan_enc_str by exact H.
+  cbn [utf8_scan]. rewrite app_nil_r, map_map. apply map_id.
+Qed.
+
+Lemma utf8_encode_some s : Forall scalar s -> utf8_encode s = Some (utf8_enc_str s).
+Proof.
+  intros H. unfold utf8_encode. replace (forallb scalarb s) with true; [reflexivity|].
+  symmetry. apply forallb_forall. rewrite Forall_forall in H. intros x Hx.
+  apply scalarb_spec. auto.
+Qed.
+
+(* str.encode('utf-8') then bytes.decode('utf-8') is the identity whenever encode succeeds *)
+Lemma utf8_encode_dec s bs : utf8_encode s = Some bs -> utf8_dec bs = Some s.
+Proof.
+  unfold utf8_encode. destruct (forallb scalarb s) eqn:E; [|discriminate].
+  intros [= <-]. apply utf8_dec_enc. apply Forall_forall. intros x Hx.
+  apply scalarb_spec. rewrite forallb_forall in E. auto.
 Qed.
